@@ -249,6 +249,8 @@ func valStr(v constant.Value) string {
 		return v.String()
 	case constant.Float:
 		return "f" + v.ExactString()
+	case constant.String:
+		return "s:" + vh.Hex([]byte(constant.StringVal(v)))
 	}
 	return "?" + v.ExactString()
 }
@@ -346,6 +348,8 @@ func goValStr(v goconstant.Value) string {
 		return v.String()
 	case goconstant.Float:
 		return "f" + v.ExactString()
+	case goconstant.String:
+		return "s:" + vh.Hex([]byte(goconstant.StringVal(v)))
 	}
 	return "?" + v.ExactString()
 }
@@ -537,6 +541,123 @@ func handle(f []string) string {
 			}
 			return "bad-op"
 		})
+	case "ship": // ship x y : the Wa-only three-way comparison x <=> y on Int constants
+		if len(a) != 2 {
+			return "bad-op"
+		}
+		return panicky(func() string {
+			switch impl {
+			case "w":
+				return strconv.FormatInt(constant.CompareSpaceShip(waInt(a[0]), waInt(a[1])), 10)
+			case "b":
+				return strconv.Itoa(parseBig(a[0]).Cmp(parseBig(a[1])))
+			}
+			return "bad-op"
+		})
+	case "fship": // fship x y : <=> on float literals
+		if len(a) != 2 {
+			return "bad-op"
+		}
+		return panicky(func() string {
+			switch impl {
+			case "w":
+				return strconv.FormatInt(constant.CompareSpaceShip(waFloatLit(a[0]), waFloatLit(a[1])), 10)
+			case "b":
+				x, ok1 := new(big.Rat).SetString(a[0])
+				y, ok2 := new(big.Rat).SetString(a[1])
+				if !ok1 || !ok2 {
+					return "bad-op"
+				}
+				return strconv.Itoa(x.Cmp(y))
+			}
+			return "bad-op"
+		})
+	case "fcmp": // fcmp <rel> x y : comparison of float literals
+		if len(a) != 3 {
+			return "bad-op"
+		}
+		return panicky(func() string {
+			switch impl {
+			case "w":
+				return strconv.FormatBool(constant.Compare(waFloatLit(a[1]), waTok[a[0]], waFloatLit(a[2])))
+			case "g":
+				return strconv.FormatBool(goconstant.Compare(goFloatLit(a[1]), goTok[a[0]], goFloatLit(a[2])))
+			}
+			return "bad-op"
+		})
+	case "sship", "scmp", "sbin", "slen": // string constants, operands hex-encoded
+		return panicky(func() string {
+			switch op {
+			case "sship":
+				if len(a) != 2 || impl != "w" {
+					return "bad-op"
+				}
+				return strconv.FormatInt(constant.CompareSpaceShip(constant.MakeString(string(vh.UnHex(a[0]))), constant.MakeString(string(vh.UnHex(a[1])))), 10)
+			case "scmp":
+				if len(a) != 3 {
+					return "bad-op"
+				}
+				if impl == "g" {
+					return strconv.FormatBool(goconstant.Compare(goconstant.MakeString(string(vh.UnHex(a[1]))), goTok[a[0]], goconstant.MakeString(string(vh.UnHex(a[2])))))
+				}
+				return strconv.FormatBool(constant.Compare(constant.MakeString(string(vh.UnHex(a[1]))), waTok[a[0]], constant.MakeString(string(vh.UnHex(a[2])))))
+			case "sbin": // only add
+				if len(a) != 3 || a[0] != "add" {
+					return "bad-op"
+				}
+				if impl == "g" {
+					return "s:" + vh.Hex([]byte(goconstant.StringVal(goconstant.BinaryOp(goconstant.MakeString(string(vh.UnHex(a[1]))), gotoken.ADD, goconstant.MakeString(string(vh.UnHex(a[2])))))))
+				}
+				return "s:" + vh.Hex([]byte(constant.StringVal(constant.BinaryOp(constant.MakeString(string(vh.UnHex(a[1]))), token.ADD, constant.MakeString(string(vh.UnHex(a[2])))))))
+			case "slen":
+				if len(a) != 1 {
+					return "bad-op"
+				}
+				return strconv.Itoa(len(constant.StringVal(constant.MakeString(string(vh.UnHex(a[0]))))))
+			}
+			return "bad-op"
+		})
+	case "bbin": // bbin <land|lor|eq|ne> x y on Bool constants; bnot x
+		if len(a) != 3 {
+			return "bad-op"
+		}
+		return panicky(func() string {
+			x, y := a[1] == "true", a[2] == "true"
+			if impl == "g" {
+				gx, gy := goconstant.MakeBool(x), goconstant.MakeBool(y)
+				switch a[0] {
+				case "land":
+					return goconstant.BinaryOp(gx, gotoken.LAND, gy).String()
+				case "lor":
+					return goconstant.BinaryOp(gx, gotoken.LOR, gy).String()
+				case "eq":
+					return strconv.FormatBool(goconstant.Compare(gx, gotoken.EQL, gy))
+				case "ne":
+					return strconv.FormatBool(goconstant.Compare(gx, gotoken.NEQ, gy))
+				}
+				return "bad-op"
+			}
+			wx, wy := constant.MakeBool(x), constant.MakeBool(y)
+			switch a[0] {
+			case "land":
+				return constant.BinaryOp(wx, token.LAND, wy).String()
+			case "lor":
+				return constant.BinaryOp(wx, token.LOR, wy).String()
+			case "eq":
+				return strconv.FormatBool(constant.Compare(wx, token.EQL, wy))
+			case "ne":
+				return strconv.FormatBool(constant.Compare(wx, token.NEQ, wy))
+			}
+			return "bad-op"
+		})
+	case "bnot":
+		if len(a) != 1 {
+			return "bad-op"
+		}
+		if impl == "g" {
+			return goconstant.UnaryOp(gotoken.NOT, goconstant.MakeBool(a[0] == "true"), 0).String()
+		}
+		return constant.UnaryOp(token.NOT, constant.MakeBool(a[0] == "true"), 0).String()
 	case "ratint": // ratint n d : ToInt(n / d) with the untyped (rational) quotient
 		if len(a) != 2 {
 			return "bad-op"
